@@ -48,6 +48,8 @@ def run_wire(ctx, gens, nquick, nthorough, nloop, design_cfg=None):
         total += len(sc)
         # rare classes are always kept, the bulk is sampled
         rare = [s for s in sc if s["out"]["kind"] == "badsend"]
+        # sizes around the pool's seed capacity, one scenario per encoded size (MC_Wire GenC01EdgeInit)
+        rare += [s for s in sc if any(500 <= m["vlen"] <= 515 and m["vlen"] not in (508, 509, 510) for m in s["req"] + s["resp"])]
         # megabyte messages (C01): a seeded handful in the quick tier, all of them in the thorough one
         big = [s for s in sc if any(m["vlen"] > 1 << 20 for m in s["req"] + s["resp"])]
         sc = [s for s in sc if not any(m["vlen"] > 1 << 20 for m in s["req"] + s["resp"])]
